@@ -1,8 +1,106 @@
 /-
-  C15 — property theorems (see DESIGN.md §5 C15).
+  C15 — the `ar` reader and the `.deb` loader on ARBITRARY bytes: iteration terminates
+  (the fuel of the model is never exhausted), makes at most one step per 60 input bytes,
+  returns only members that came from a header with both magic bytes and whose reader
+  delivers exactly `size` bytes; `.deb` loading never loops and never panics.
+  Property theorems only; lemmas live in GoDebian/Lemmas/ArIter.lean and ArDeb.lean.
 -/
 import GoDebian.Model.Deb
 import GoDebian.Spec.Ar
+import GoDebian.Lemmas.ArIter
+import GoDebian.Lemmas.ArDeb
 
 namespace GoDebian.Props.C15
+open GoDebian GoDebian.Ar
+
+/-- Iteration finishes: the fuel `bs.length / 60 + 1` is never exhausted.  This is the
+    termination proof of the Go loop `for { e, err := ar.Next(); … }`: every successful
+    `Next` needs 60 bytes at the current offset and advances the offset by at least 60. -/
+theorem C15_terminates (bs : Bytes) (es : List Entry) (e : End)
+    (h : readAll bs = some (es, e)) : e ≠ .fuel :=
+  Lemmas.Ar.readAll_terminates h
+
+/-- One step of the loop: a successful `Next` at `off` has 60 bytes available there and
+    moves the offset forward by at least 60. -/
+theorem C15_next_advances (bs : Bytes) (off off' : Nat) (e : Entry)
+    (h : next bs off = .entry e off') : off + 60 ≤ bs.length ∧ off + 60 ≤ off' :=
+  ⟨(Lemmas.Ar.next_entry h).1, (Lemmas.Ar.next_entry h).2.1⟩
+
+/-- At most one step per 60 input bytes (the left disjunct always holds). -/
+theorem C15_progress (bs : Bytes) (es : List Entry) (e : End) (h : readAll bs = some (es, e)) :
+    8 + 60 * es.length ≤ bs.length ∨ es = [] :=
+  Or.inl (Lemmas.Ar.readAll_progress h)
+
+/-- Every returned member came from a header with both magic bytes, has a non-negative
+    size, and its reader delivers exactly that many bytes, starting right after the
+    header. -/
+theorem C15_entries (bs : Bytes) (es : List Entry) (e : End) (h : readAll bs = some (es, e)) :
+    ∀ x ∈ es, bs[x.hdrOff + 58]? = some 96 ∧ bs[x.hdrOff + 59]? = some 10 ∧ 0 ≤ x.size
+      ∧ (Ar.data bs x).length = x.size.toNat ∧ x.dataOff = x.hdrOff + 60 :=
+  Lemmas.Ar.readAll_entries h
+
+/-- The hypothesis is satisfiable on inputs that are not well-formed archives, with each
+    of the two possible ends:
+    * an archive of two members (odd-sized data with its pad byte, a blank numeric column,
+      an empty member) followed by 3 bytes of garbage: the truncated header reads as EOF;
+    * the same archive with 60 bytes cut out of the middle, so that the first member's
+      data are the last bytes of the second header: one entry, then EOF;
+    * the archive cut in the middle of the first member's data: the probe fails;
+    * an all-blank header line without the magic bytes: bad;
+    * an all-blank header line with the magic bytes: a nameless member of size 0;
+    * a size column "-1": bad;  a size column "+1" with the byte present: accepted;
+    * a file shorter than the global magic: `LoadAr` fails. -/
+example :
+    let B := Bytes.ofString
+    let m1 : Spec.Ar.Member := ⟨B "a.txt", true, none, some 0, some 0, B "100644", B "hey"⟩
+    let m2 : Spec.Ar.Member := ⟨B "control.tar.gz", false, some 1700000000, none, some 1000, B "644", []⟩
+    let bs := Spec.Ar.build [m1, m2]
+    let e1 : Entry := ⟨B "a.txt", 0, 0, 0, B "100644", 3, 8, 68⟩
+    let e2 : Entry := ⟨B "control.tar.gz", 1700000000, 0, 1000, B "644", 0, 72, 132⟩
+    let blank : Entry := ⟨[], 0, 0, 0, [], 0, 8, 68⟩
+    bs.length = 132 ∧
+    readAll (bs ++ [1, 2, 3]) = some ([e1, e2], .eof) ∧
+    readAll (bs.take 68 ++ bs.drop 128) = some ([e1], .eof) ∧
+    Ar.data (bs.take 68 ++ bs.drop 128) e1 = [32, 32, 96] ∧
+    readAll (bs.take 70) = some ([], .bad) ∧
+    readAll (magic ++ List.replicate 60 32) = some ([], .bad) ∧
+    readAll (magic ++ List.replicate 58 32 ++ [96, 10]) = some ([blank], .eof) ∧
+    readAll (magic ++ List.replicate 48 32 ++ B "-1        " ++ [96, 10]) = some ([], .bad) ∧
+    readAll (magic ++ List.replicate 48 32 ++ B "+1        " ++ [96, 10, 7])
+      = some ([{ blank with size := 1 }], .eof) ∧
+    readAll (B "!<arch>") = none := by
+  decide +kernel
+
+/-- `.deb` loading on arbitrary bytes neither runs out of fuel (= loops forever) nor
+    panics: not in anything `Load` does before it needs a decompressor (`plan`), and in the
+    whole of `Load` an outcome other than a value or an ordinary error can only be one
+    that `Codec.unmarshal` reports on the control file (its own bounded recursion, see
+    C11/C12), after `plan` has succeeded. -/
+theorem C15_load_total (bs : Bytes) (schema : Codec.Schema) (ctl : Deb.TarAnswer) (d : Bool) :
+    Deb.plan bs ≠ .error .fuel ∧ Deb.plan bs ≠ .error .panic ∧
+    ∀ e, Deb.load bs schema ctl d = .error e → e = .fuel ∨ e = .panic →
+      ∃ p content, Deb.plan bs = .ok p ∧ Codec.unmarshal schema content = .error e :=
+  ⟨(Lemmas.Ar.plan_total bs).1, (Lemmas.Ar.plan_total bs).2, fun _ h he =>
+    Lemmas.Ar.load_error h (by rcases he with rfl | rfl <;> simp)⟩
+
+/-- Both remaining outcomes of `plan` occur: a `.deb` with debian-binary = "2.0\n", one
+    control.* and one data.* tar member is accepted; without the data member, with a
+    duplicate member, truncated inside a member, or on garbage, the result is an error
+    value. -/
+example :
+    let B := Bytes.ofString
+    let d1 : Spec.Ar.Member := ⟨B "debian-binary", false, some 1700000000, some 0, some 0, B "100644", B "2.0\n"⟩
+    let d2 : Spec.Ar.Member := ⟨B "control.tar.gz", false, some 1700000000, some 0, some 0, B "100644", B "xyz"⟩
+    let d3 : Spec.Ar.Member := ⟨B "data.tar.xz", true, some 1700000000, some 0, some 0, B "100644", B "data!"⟩
+    let err (r : Res Deb.Plan) : Option Err := match r with | .error e => some e | .ok _ => none
+    (Deb.plan (Spec.Ar.build [d1, d2, d3])).toOption.map
+        (fun p => (p.members.map (·.name), p.control.name, p.data.name))
+      = some ([B "debian-binary", B "control.tar.gz", B "data.tar.xz"],
+              B "control.tar.gz", B "data.tar.xz") ∧
+    err (Deb.plan (Spec.Ar.build [d1, d2])) = some .err ∧
+    err (Deb.plan (Spec.Ar.build [d1, d2, d3, d2])) = some .err ∧
+    err (Deb.plan ((Spec.Ar.build [d1, d2, d3]).take 200)) = some .err ∧
+    err (Deb.plan (B "garbage")) = some .err := by
+  decide +kernel
+
 end GoDebian.Props.C15
